@@ -29,7 +29,7 @@ import yaql
 from yaql.language import contexts, expressions, specs, utils, yaqltypes
 from yaql.standard_library import queries
 
-from gens import registry
+from gens import registry, scalarops
 
 lchars = registry.lchars
 
@@ -394,7 +394,10 @@ def gen_registry_types():
         'def validatorsRaising : List (List Char) := [%s]\n\n'
         '/-- `utils.NO_VALUE` and an evaluated `utils.MappingRule` -/\n'
         'def markerVal : Val := %s\n'
-        'def mapRuleVal : Val := %s\n\n'
+        'def mapRuleVal : Val := %s\n'
+        '/-- a `datetime.datetime` and a `datetime.timedelta` (no evaluator kind; used by examples) -/\n'
+        'def datetimeVal : Val := %s\n'
+        'def timespanVal : Val := %s\n\n'
         '/-- evaluator kind -> a value of that kind as the parameter types see it; every probe value of a kind has the\n'
         '    same `isinstance` verdicts against the mentioned classes and passes the same validators unless listed in\n'
         '    `nonUniformKinds` -/\n'
@@ -405,6 +408,8 @@ def gen_registry_types():
         'def ekInfo : EK → Nat × Bool\n%s\n'
         'def ekFn : Nat := %d\n'
         'def ekOther : Nat := %d\n\n'
+        '/-- the operator table of the default engine: (symbol, unary, name of the function the operator calls) -/\n'
+        'def operatorTable : List (List Char × Bool × List Char) := [\n%s\n]\n\n'
         'def nLayers : Nat := %d\n'
         '/-- (layer, name) pairs in `_exclusive_funcs` -/\n'
         'def exclusive : List (Nat × List Char) := [%s]\n\n'
@@ -433,9 +438,11 @@ def gen_registry_types():
         ', '.join(map(str, U.mentioned)),
         ',\n'.join('  %s' % lchars(x) for x in U.vnames),
         ', '.join(lchars(x) for x in U.raises),
-        U.val(utils.NO_VALUE), U.val(EXTRA_PROBES[1]),
+        U.val(utils.NO_VALUE), U.val(EXTRA_PROBES[1]), U.val(EXTRA_PROBES[2]), U.val(EXTRA_PROBES[3]),
         '\n'.join(kind_rows), ', '.join(lchars(k) for k in b['nonuniform']),
-        '\n'.join(ek_rows), U.ek_id['function'], U.ek_id['getContextValue'], b['layers'],
+        '\n'.join(ek_rows), U.ek_id['function'], U.ek_id['getContextValue'],
+        ',\n'.join('  (%s, %s, %s)' % (lchars(sym), 'true' if un else 'false', lchars(fn))
+                   for sym, un, fn in scalarops.operators()), b['layers'],
         ', '.join('(%d, %s)' % (li, lchars(nm)) for li, nm in b['exclusive']),
         '\n'.join(r['text'] for r in b['rows']),
         ', '.join('d%d' % i for i in range(len(b['rows']))), '\n'.join(group_rows),
